@@ -115,7 +115,8 @@ impl PartitionConfirmationState {
                 });
 
         // Update the event's confirmation status
-        event.confirmation_count = confirmation_count;
+        // Reports can arrive out of order: a stale lower count must not undo a higher one
+        event.confirmation_count = event.confirmation_count.max(confirmation_count);
         event.last_attempt = now;
         event.attempts += 1;
 
